@@ -196,7 +196,21 @@ func (s *solver) readLine() string {
 }
 
 // check decides satisfiability of (asserted ∧ lit) where lit is t or ¬t; t may be nil.
+// An "unknown" that is not a solver error (a timeout on a starved machine) is asked once
+// more with six times the time limit before it is reported.
 func (s *solver) check(t *Term, neg bool) satResult {
+	nerr := len(s.errors)
+	r := s.check1(t, neg)
+	if r == resUnknown && len(s.errors) == nerr && strings.HasPrefix(s.name, "z3") {
+		s.nUnknown--
+		s.send(fmt.Sprintf("(set-option :timeout %d)", 6*s.timeMs))
+		r = s.check1(t, neg)
+		s.send(fmt.Sprintf("(set-option :timeout %d)", s.timeMs))
+	}
+	return r
+}
+
+func (s *solver) check1(t *Term, neg bool) satResult {
 	start := time.Now()
 	if t == nil {
 		s.send("(check-sat)")
